@@ -206,6 +206,7 @@ func (m *apiRunner) step(c *apiCall) apiStep {
 	default:
 		st.tags = append(st.tags, "cls:ok")
 	}
+	st.tags = append(st.tags, c.M+":"+strings.TrimPrefix(st.tags[len(st.tags)-1], "cls:"))
 	changed := postDump != preDump
 	if changed {
 		st.tags = append(st.tags, "state-changed")
